@@ -342,6 +342,32 @@ def run(repo, chk):
                    expected="self._head = elevation + init_level", found="no assignment of _head")
     chk.floor("R-C06-1b", 2)
 
+    # ---------------------------------------------------------------- R-C06-1c the volume curve used is the tank's CURRENT curve
+    # Curve.points has a setter: the integration step and get_volume must read the points at the time of use (or through a memo keyed by them)
+    def curve_source_ok(fn, owner_cls):
+        bad = []
+        for a in walk(fn):
+            if isinstance(a, ast.Assign) and isinstance(a.targets[0], ast.Name) and a.targets[0].id in ("vcurve", "arr", "curve", "points"):
+                v = a.value
+                if ".points" in unparse(v):
+                    continue
+                if isinstance(v, ast.Call) and isinstance(v.func, ast.Attribute):
+                    m = [n for n in owner_cls.body if isinstance(n, ast.FunctionDef) and n.name == v.func.attr]
+                    if m:
+                        guards = [n for n in walk(m[0]) if isinstance(n, ast.If) and "is None" in unparse(n.test)]
+                        keyed = any(".points" in unparse(gd.test) for gd in [n for n in walk(m[0]) if isinstance(n, ast.If)])
+                        if guards and not keyed:
+                            bad.append("%s() memoises the curve array under `%s` only" % (v.func.attr, unparse(guards[0].test)))
+                        continue
+                bad.append(norm(a))
+        return bad
+    for fn_, label in ((repo.func(HYD, "update_tank_heads"), "update_tank_heads"), (repo.func(ELEM, "Tank.get_volume"), "Tank.get_volume")):
+        uses_curve = "vol_curve" in unparse(fn_) or "_vol_curve" in unparse(fn_)
+        bad_ = curve_source_ok(fn_, tk) if uses_curve else ["no volume-curve branch"]
+        chk.expect(uses_curve and not bad_, "R-C06-1c", "%s reads the points of the tank's volume curve at the time of use" % label, loc(fn_),
+                   "the points of an assigned curve can be replaced in place (curve.points = [...]); an array cached when the curve was first used makes later runs integrate through the old curve",
+                   expected="np.array(tank.vol_curve.points) or a memo keyed by the points", found=bad_)
+
     # ---------------------------------------------------------------- R-C06-3b the closure the tank controls command is effective for every link kind they act on
     # the closing controls write _internal_status = Closed; a link's effective status must then be Closed whatever the user status is
     from .c02 import status_table
